@@ -460,6 +460,7 @@ type concCase struct {
 	script   []int
 	child    bool   // run in a re-exec'd child process (the case may crash the process)
 	ofail    string // "" | "err" | "panic": a lifecycle element placed AFTER the async stage whose Open fails
+	osat     bool   // the failing Open waits until the stage has saturated (the source is no longer pulled: workers hold results nobody takes)
 	rep      int    // materialise the SAME stream value this many times (>= 1)
 	slowat   int    // source Emit call index that takes `slowms` milliseconds before it returns (-1 = none): a quiet source
 	slowms   int
@@ -534,6 +535,8 @@ func parseConcCase(text string) (*concCase, error) {
 			cc.child = v == "1"
 		case "ofail":
 			cc.ofail = v
+		case "osat":
+			cc.osat = v == "1"
 		case "slowat":
 			cc.slowat = atoi()
 		case "slowms":
@@ -763,6 +766,19 @@ func (r *concRun) failingOpen() stream.Lifecycle {
 		if r.cc.slowret > 0 && r.cc.park >= 0 {
 			// history cases: the open fails while the stage's reader goroutine sits inside the source's Emit
 			for i := 0; i < 4000 && !r.src.parked.Load(); i++ {
+				time.Sleep(50 * time.Microsecond)
+			}
+		}
+		if r.cc.osat {
+			// let the stage run until it is stuck on its full buffers: its goroutines then hold results nobody will take, and
+			// only the cancellation of the materialisation's context (doOpenStream, on this failure) lets them go
+			last, stable := int32(-1), 0
+			for i := 0; i < 8000 && stable < 60; i++ {
+				if n := r.src.calls.Load(); n == last && n > 0 {
+					stable++
+				} else {
+					last, stable = n, 0
+				}
 				time.Sleep(50 * time.Microsecond)
 			}
 		}
